@@ -105,6 +105,11 @@ func (c05) Generate(r *engine.Rand, index int, tier string) *engine.Scenario {
 		sc.Class = "ime0-pending"
 		iff = 1 << enabledLine()
 		g.emit(0x76)
+		if r.Chance(1, 4) {
+			// a CB-prefixed instruction behind the HALT: the prefix byte is the one fetched twice, so CB CB
+			// (SET 1,E) executes and the second byte then runs as an opcode of its own
+			g.emit(0xcb)
+		}
 		g.emit(engine.Pick(r, c05SafeOps))
 		if r.Bool() {
 			// a two-byte immediate load whose operand byte is itself a safe opcode
@@ -272,12 +277,12 @@ func (c05) Execute(sc *engine.Scenario) *engine.Result {
 				}
 			}
 			switch mm.kind {
-			case "cycles", "buswrite-cycle":
+			case "cycles", "buswrite-cycle", "busread-cycle":
 				// lengths of ordinary instructions are C02's; the wake-up and the dispatch out of HALT are judged here
 				if kind == "instr" && key != "76" {
 					continue
 				}
-			case "regs", "mem", "if", "ie", "buswrite", "buswrite-missing":
+			case "regs", "mem", "if", "ie", "buswrite", "buswrite-missing", "busread":
 				if !inHaltPart {
 					continue // not related to HALT: C01/C04
 				}
